@@ -121,6 +121,12 @@ def run(res):
     res.add_cases(len(scen), len(seen), [scen[-1]],
                   rule="concurrent key create/delete scenarios: thread A's script with a second thread's script injected at A's N-th free-list CAS point (every scenario has an interference inside an operation, hence non-trivial); distinct by hash")
     res.notes["conc_scenarios"] = len(scen)
+    if not res.violations:
+        # whole library: every thread of a fork-join tree (7 creation modes incl. parent-first on recycled records,
+        # every worker count) starts with empty thread-specific data and keeps its own two values until it ends
+        from props import life_common, sched_common
+        sched_common.campaign(res, "C10", "life_prog", life_common.variants(res.seed), 60 if res.tier == "quick" else 600, [],
+                              workers_note=" (oracle only: thread-specific data empty at thread start, private and intact at thread end, across migrations)")
     res.notes["conc_interferer_blocked_by_lock"] = blocked
     res.assumptions += [
         "concurrent key allocator: the theorem C10_keys_distinct_seq covers serialised histories; that alloc/dealloc ARE serialised (spin lock) is tied by the interference harness, which injects a second thread at the CAS points",
@@ -129,6 +135,9 @@ def run(res):
 
 
 def replay(path):
+    if os.path.isdir(path):
+        from props import sched_common
+        return sched_common.replay("C10", path)
     if path.endswith(".conc"):
         exe, err = build_conc()
         if err:
